@@ -85,6 +85,8 @@ package ast
 // end of the input, which has no value.
 //@ func (*Quote).End
 //@   site VALUE = call ast.(Word).End
+//@   ensures[C04 C18] an-empty-quotation-ends-after-its-quotes: (w.TokPos.line != 0 || w.TokPos.col != 0) && siteret(VALUE).line == 0 && siteret(VALUE).col == 0 ==> result.line == w.TokPos.line && result.col == w.TokPos.col + (w.Tok == "\\" ? 1 : 2)
+//@   ensures[C04 C18] a-quotation-ends-one-column-after-its-value: (siteret(VALUE).line != 0 || siteret(VALUE).col != 0) ==> result.line == siteret(VALUE).line && result.col == siteret(VALUE).col + (w.Tok == "\\" ? 0 : 1)
 //@   ensures[C04] a-quotation-with-a-position-has-an-end: (w.TokPos.line != 0 || w.TokPos.col != 0) && w.TokPos.col >= 0 && siteret(VALUE).col >= 0 ==> result.line != 0 || result.col != 0
 //@ func (*Quote).Pos
 //@   ensures[C04] result == w.TokPos
